@@ -258,6 +258,8 @@ class Run:
         self.cfg = cfg
         self.s = make_solver(cls, cfg)
         self.ref: list[str] = []
+        self.targets = [[self.s, self.ref]]  # multi-solver histories (C14/C15): [solver, reference list]
+        self.cur = 0
         self.log: list = []
         self.failure = None  # (reason, detail)
         self.approx = cfg.get("approx", False)
@@ -270,6 +272,29 @@ def _norm_vals(vals, w):
 def apply_event(run: Run, ev, check=True):
     """execute ev on run.s; compare with the reference if check; append to run.log.
     returns True if the answer was acceptable."""
+    if ev[0] == "@":  # ("@", target, *event): apply the event to solver number `target`
+        t = int(ev[1])
+        run.targets[run.cur] = [run.s, run.ref]
+        run.cur = t
+        run.s, run.ref = run.targets[t]
+        ok = apply_event(run, tuple(ev[2:]), check=check)
+        run.targets[t] = [run.s, run.ref]
+        if run.log:
+            lab, a = run.log[-1]
+            run.log[-1] = (f"@:{t}:{lab}", a)
+        return ok
+    if ev[0] == "fork":  # ("fork", target): targets.append(targets[target].branch())
+        t = int(ev[1])
+        run.targets[run.cur] = [run.s, run.ref]
+        try:
+            child = run.targets[t][0].branch()
+        except Exception as e:
+            run.log.append((ev_label(ev), ("EXC", type(e).__name__)))
+            run.failure = dict(reason="raised:" + type(e).__name__, msg=str(e)[:200])
+            return False
+        run.targets.append([child, list(run.targets[t][1])])
+        run.log.append((ev_label(ev), ("forked", len(run.targets) - 1)))
+        return True
     uni = run.uni
     s = run.s
     kind = ev[0]
@@ -426,6 +451,9 @@ def apply_event(run: Run, ev, check=True):
         elif kind == "branch":
             run.s = s.branch()
             ans = ("branched",)
+        elif kind == "forkdrop":
+            s.branch()  # a sibling is created and dropped; s itself carries on
+            ans = ("forkdropped",)
         elif kind == "pickle":
             run.s = pickle.loads(pickle.dumps(s, -1))
             ans = ("pickled",)
@@ -481,7 +509,8 @@ def run_history(uni_name, cls, cfg, hist, check_all=False, want_key=True, hooks=
                     break
             out.update(ok=ok, failure=run.failure, log=run.log, failed_at=failed_at, nref=len(run.ref))
             if want_key and ok:
-                out["key"] = state_key(run.s, tuple(sorted(run.ref)))
+                run.targets[run.cur] = [run.s, run.ref]
+                out["key"] = state_key(tuple(t[0] for t in run.targets), tuple(tuple(sorted(t[1])) for t in run.targets))
             if hooks and hooks.get("end"):
                 hooks["end"](run, out)
         except BaseException as e:  # harness error
@@ -576,3 +605,122 @@ def explore(report, pid, uni_name, cls, cfg, events, depth, max_adds=2, tag="", 
 def replay_history(rp, check_all=True):
     hist = tuple(tuple(e) for e in rp["hist"])
     return run_history(rp["uni"], rp["cls"], rp["cfg"], hist, check_all=check_all)
+
+
+# ---------------------------------------------------------------------------------------------
+# trees of branched solvers (C14): events carry a target, `fork` creates a new target
+# ---------------------------------------------------------------------------------------------
+
+_TREE = {}
+
+
+def lineage(hist):
+    """per-target projection: the events a target (and its ancestors up to the fork) experienced"""
+    lin = {0: []}
+    n = 1
+    for ev in hist:
+        if ev[0] == "@":
+            lin[int(ev[1])].append(tuple(ev[2:]))
+        elif ev[0] == "fork":
+            t = int(ev[1])
+            lin[n] = [*lin[t], ("branch",)]
+            lin[t].append(("forkdrop",))
+            n += 1
+    return lin
+
+
+def _tree_enabled(hist, cfgd):
+    pre, post = cfgd["pre"], cfgd["post"]
+    nforks = sum(1 for e in hist if e[0] == "fork")
+    ntargets = 1 + nforks
+    if nforks == 0:
+        out = [("fork", 0)]
+        if len(hist) < cfgd["pre_depth"]:
+            out += [("@", 0, *e) for e in pre]
+        return out
+    first_fork = next(i for i, e in enumerate(hist) if e[0] == "fork")
+    if len(hist) - first_fork - 1 >= cfgd["post_depth"]:
+        return []
+    out = []
+    for t in range(ntargets):
+        out += [("@", t, *e) for e in post]
+        if nforks < cfgd["max_forks"]:
+            out.append(("fork", t))
+    return out
+
+
+def _expand_tree(hists):
+    cfgd = _TREE
+    uni_name, cls, cfg = cfgd["uni"], cfgd["cls"], cfgd["cfg"]
+    res = []
+    for h in hists:
+        for ev in _tree_enabled(h, cfgd):
+            hh = h + (ev,)
+            o = run_history(uni_name, cls, cfg, hh)
+            leak = None
+            if not o.get("ok") and not o.get("harness_error") and o.get("failed_at") == len(hh) - 1 and ev[0] == "@":
+                # differential: does the target's own projection answer this call correctly?
+                proj = tuple(lineage(hh)[int(ev[1])])
+                po = run_history(uni_name, cls, cfg, proj, want_key=False)
+                leak = bool(po.get("ok"))
+            if o.get("ok") and cfg.get("approx") and ev[0] == "@" and ev[2] in ("sat", "eval", "beval", "min", "max", "sol"):
+                # approximate solvers: no exact reference, so compare with the member's own projection literally
+                t = int(ev[1])
+                others = any(e[0] == "@" and int(e[1]) != t for e in hh)
+                if others:
+                    proj = tuple(lineage(hh)[t])
+                    po = run_history(uni_name, cls, cfg, proj, want_key=False)
+                    if po.get("ok") and po.get("log") and o.get("log") and po["log"][-1][1] != o["log"][-1][1]:
+                        o["ok"] = False
+                        o["failed_at"] = len(hh) - 1
+                        o["failure"] = dict(reason="answer-changed-by-sibling", alone=po["log"][-1][1], interleaved=o["log"][-1][1])
+                        leak = True
+            res.append((hh, o.get("ok"), o.get("key"), o.get("failure"), o.get("harness_error"), o.get("failed_at"), leak))
+    return res
+
+
+def explore_tree(report, uni_name, cls, cfg, pre, post, pre_depth, post_depth, max_forks=1, tag=""):
+    _TREE.clear()
+    _TREE.update(uni=uni_name, cls=cls, cfg=cfg, pre=pre, post=post, pre_depth=pre_depth, post_depth=post_depth, max_forks=max_forks)
+    seen = set()
+    frontier = [()]
+    cfgs = cls + (("[" + tag + "]") if tag else "")
+    total = 0
+    d = 0
+    while frontier:
+        d += 1
+        chunks = [c for c in (frontier[i::64] for i in range(64)) if c]
+        nxt = []
+        for res in pmap(_expand_tree, chunks):
+            if isinstance(res, dict):
+                report.merge(res)
+                continue
+            for hh, ok, key, failure, herr, failed_at, leak in res:
+                total += 1
+                report.count("transitions")
+                report.count(f"executions_{cfgs}")
+                if herr:
+                    report.oracle_errors.append(f"{cfgs} {[ev_label(e) for e in hh]}: {herr}")
+                    continue
+                if not ok:
+                    if failed_at is not None and failed_at < len(hh) - 1:
+                        continue
+                    if hh[-1][0] == "fork":
+                        report.fail(f"{cfgs}:fork:{(failure or {}).get('reason')}", f"{cfgs}|" + " ; ".join(ev_label(e) for e in hh), failure, {"uni": uni_name, "cls": cls, "cfg": cfg, "hist": [list(e) for e in hh]})
+                        continue
+                    if leak:
+                        last = hh[-1]
+                        sig = f"{cfgs}:leak:{last[2]}:{(failure or {}).get('reason')}"
+                        report.fail(sig, f"{cfgs}|" + " ; ".join(ev_label(e) for e in hh), failure, {"uni": uni_name, "cls": cls, "cfg": cfg, "hist": [list(e) for e in hh]})
+                    else:
+                        report.count("wrong_but_not_a_leak")  # the projection is wrong as well: C11-C13's business
+                    continue
+                if key not in seen:
+                    seen.add(key)
+                    nxt.append(hh)
+                    if sum(1 for e in hh if e[0] == "fork"):
+                        report.sample({"cls": cfgs, "history": [ev_label(e) for e in hh]}, limit=8)
+        nxt.sort(key=lambda h: [ev_label(e) for e in h])
+        frontier = nxt
+        report.extra.setdefault("levels", []).append(f"{cfgs}: step {d}: executions so far {total}, distinct states {len(seen)}")
+    report.count("states", len(seen))
